@@ -118,7 +118,7 @@ func (in *vfGWInst) Enabled() []string {
 			ok = len(g.relays[f[1]]) > 0
 		case "gate":
 			ok = g.conn[f[1]] && !g.gated[f[1]]
-		case "ungate":
+		case "ungate", "letone":
 			ok = g.gated[f[1]]
 		case "score":
 			g.appMu.Lock()
